@@ -34,7 +34,10 @@ use tensor_chain::{
 
 const FAKE_TX_REAL: u64 = 0x7fff_0000_0000_0001;
 const FAKE_TX_C: u64 = 900;
-const FAKE_H_REAL: u64 = 0x7fff_0000_0000_1000;
+/// handles no lock manager ever hands out: above the counter's high-water mark (90 % of u64::MAX),
+/// so they stay distinguishable from real handles even if recovery moves the counter past every
+/// handle it finds in the log
+const FAKE_H_REAL: u64 = 0xf000_0000_0000_1000;
 const FAKE_H_C: u64 = 1000;
 const GUARD_MS: u64 = 30;
 const NEVER_MS: u64 = 3_600_000;
@@ -187,10 +190,13 @@ impl Book {
         }
     }
     fn h_c(&self, real: u64) -> u64 {
+        if let Some(i) = self.handles.iter().position(|h| h.real == real) {
+            return i as u64 + 1;
+        }
         if real >= FAKE_H_REAL {
             return FAKE_H_C + (real - FAKE_H_REAL);
         }
-        self.handles.iter().position(|h| h.real == real).map(|i| i as u64 + 1).unwrap_or(9999)
+        9999
     }
     fn token(&self, e: &TxWalEntry) -> String {
         match e {
